@@ -8,7 +8,8 @@
 //! trusted: R15 (deep slice): update_persisted_channel builds its result from async-move blocks (impl Future, outside the verifier); the unit extracts the body of the block that runs after the consolidating full-monitor write verbatim as an async fn of (monitor_name, latest_update_id, write_status), together with the function-local const LEGACY_CLOSED_CHANNEL_UPDATE_ID; its precondition is the meaning of a successful write: the stored full monitor then is the one just written (stored_latest == its latest_update_id); the decision update-vs-full-monitor and the writes themselves are dropped and not claimed
 //! trusted: R15 (deep slice): maybe_read_channel_monitor_with_updates joins futures and iterator adapters; the unit extracts the filter predicate that selects the updates to replay verbatim; and the statement(s) between collecting the listed names and filtering them (the sort) verbatim as a function of the list; `updates` is an environment type standing for Vec<UpdateName> whose sort / sort_unstable / sort_by_key / sort_unstable_by_key / reverse carry the std contracts (permutation; ordered by Ord / by the key; a key closure `|u| E`, which Verus gives no specification, is rewritten into the closure returning `(E) as i128` with that as its postcondition, so only integer keys of at most 64 bits are understood, anything else is a tool error), and the derived Ord of UpdateName is taken to be the lexicographic order on (id, name) (trusted: #[derive(Ord)] on a tuple struct); reading and applying the updates in iteration order (MultiResultFuturePoller keeps the order of its futures) are dropped and not claimed
 //! trusted: R15 (deep slice): maybe_read_channel_monitor_with_updates: the statement that turns the listing into update names, verbatim as a function of the listing's result; R6: `V.into_iter().map(|name| UpdateName::new(name)).collect()` is the wrapper collect_update_names (all names parse: the names in order; otherwise an error), `R.into_iter().flatten()` on a Result is the wrapper result_into_iter_flatten (std semantics: the Ok value's elements, or none)
-//! trusted: R15 (deep slice): maybe_read_channel_monitor_with_updates: the body of the loop that applies the stored updates, verbatim as a function of one read result and the monitor (update_monitor records the update in a ghost log and succeeds iff the uninterpreted applies_cleanly); R9: the map_err closure gets its parameter type, its log statement is dropped by R3
+//! trusted: async_archive: MonitorUpdatingPersisterAsyncInner::archive_persisted_channel extracted whole against an async store stub whose `remove` carries the (P) obligation as its precondition (the live monitor of a key goes only once the bytes recovery would rebuild for that key are in the archive under the same key); read_channel_monitor_with_updates is its own contract's summary (the monitor it returns encodes to those bytes)
+//! trusted: R15 (deep slice): maybe_read_channel_monitor_with_updates: the body of the loop that applies the stored updates, verbatim as a function of one read result and the monitor (update_monitor records the update in a ghost log and succeeds iff the uninterpreted applies_cleanly; its PANIC on an update that is not the next one is its precondition: finding F16); R8: a `break` of the loop is the function returning `false` (no further stored update is looked at), its normal end `true`; R9: the map_err closure gets its parameter type, its log statement is dropped by R3
 //! plemma: C19 call-site precondition of KVStoreSync::remove in the blanket Persist impl's archive_persisted_channel: the live copy of a monitor is deleted only after the very bytes read from it were accepted by the archive namespace
 //! trusted: sync_persist: the three methods of `impl<K: KVStoreSync> Persist for K` are verified as inherent methods of a Store stub whose write reports its result through the uninterpreted write_ok, whose read of the live namespace returns live_value(key), and whose remove carries the archive precondition; ChannelMonitor::encode / MonitorName::to_key uninterpreted; enum ChannelMonitorUpdateStatus extracted; R5: the signer type parameter is dropped
 //! trusted: read_channel_monitors: the test that refuses a monitor stored under a key other than its own persistence key is sliced (keys compare by identity); listing, reading and decoding are dropped and not claimed
@@ -277,16 +278,20 @@ use vstd::prelude::*;
 pub struct IoError {}
 pub enum ErrorKind { Other, NotFound }
 impl IoError { #[verifier::external_body] pub fn new(kind: ErrorKind, msg: &str) -> (r: IoError) { unimplemented!() } }
-pub struct Update { pub id: u64 }
+pub struct Update { pub update_id: u64 }
 pub struct UpdateName {}
 pub struct Broadcaster {} pub struct FeeEstimator {} pub struct Logger {}
 // ghost log of the updates handed to update_monitor, in order
-pub struct Monitor { pub applied: Ghost<Seq<Update>> }
+pub struct Monitor { pub applied: Ghost<Seq<Update>>, pub latest_update_id: u64 }
 pub uninterp spec fn applies_cleanly(m: Monitor, u: Update) -> bool;
 impl Monitor {
+    // ChannelMonitorImpl::update_monitor PANICS on an update that is not the next one ("Attempted to apply ChannelMonitorUpdates out of order"), the legacy closing id excepted: that is its precondition here
     #[verifier::external_body] pub fn update_monitor(&mut self, update: &Update, broadcaster: &Broadcaster, fee_estimator: &FeeEstimator, logger: &Logger) -> (r: Result<(), ()>)
+        requires update.update_id == u64::MAX || update.update_id as int == old(self).latest_update_id + 1
         ensures final(self).applied@ == old(self).applied@.push(*update), r is Ok == applies_cleanly(*old(self), *update) { unimplemented!() }
+    pub fn get_latest_update_id(&self) -> (r: u64) ensures r == self.latest_update_id { self.latest_update_id }
 }
+impl UpdateName { #[verifier::external_body] pub fn as_str(&self) -> (r: &str) { unimplemented!() } }
 // the names the store listed become the updates to look at: a listing that failed, or a name that is not an update name, fails the read
 pub struct ListedName { pub id: Ghost<Option<u64>> }
 pub struct ParsedName { pub id: u64 }
@@ -327,23 +332,99 @@ impl Persister {
 //@slice R15
     for (update_name, update_res) in MultiResultFuturePoller::new(update_futures).await { $body:any } Ok(Some((best_block, monitor)))
 //@with
-    fn replay_one_stored_update(&self, monitor: &mut Monitor, update_name: &UpdateName, update_res: Result<Update, IoError>) -> Result<(), IoError> { $body Ok(()) }
+    fn replay_one_stored_update(&self, monitor: &mut Monitor, monitor_key: &str, update_name: &UpdateName, update_res: Result<Update, IoError>) -> Result<bool, IoError> { $body Ok(true) }
+//@rw R8 ?
+    break;
+//@with
+    return Ok(false);    // (leaving the loop: no further stored update is looked at)
 //@rw R9
     .map_err(|e| { io::Error::new(io::ErrorKind::Other, "Monitor update failed") })
 //@with
     .map_err(|e: ()| -> (o: IoError) { IoError::new(ErrorKind::Other, "Monitor update failed") })
 //@ret r
-//@ensures P C19 recovery-fails-as-a-whole-when-a-stored-update-cannot-be-read-or-does-not-apply-and-otherwise-applies-the-update-it-read
+//@requires
+    old(monitor).latest_update_id < u64::MAX,
+//@ensures P C19 recovery-applies-a-stored-update-only-as-the-next-one-stops-at-the-first-gap-without-failing-and-fails-as-a-whole-when-an-update-cannot-be-read-or-does-not-apply
     update_res is Err ==> r is Err && final(monitor).applied@ == old(monitor).applied@,
-    update_res matches Ok(u) ==> final(monitor).applied@ == old(monitor).applied@.push(u) && (r is Ok) == applies_cleanly(*old(monitor), u),
+    update_res matches Ok(u) ==> (if u.update_id == u64::MAX || u.update_id as int == old(monitor).latest_update_id + 1 {
+            final(monitor).applied@ == old(monitor).applied@.push(u) && (r is Ok) == applies_cleanly(*old(monitor), u) && (r is Ok ==> r->Ok_0)
+        } else { r == Ok::<bool, IoError>(false) && final(monitor).applied@ == old(monitor).applied@ }),
 //@mutant update_that_does_not_apply_is_skipped
     io::Error::new(io::ErrorKind::Other, "Monitor update failed") })?;
 //@with
     io::Error::new(io::ErrorKind::Other, "Monitor update failed") }).ok();
+//@mutant update_after_a_gap_handed_to_the_monitor
+    && update.update_id != monitor.get_latest_update_id() + 1
+//@with
+    && update.update_id < monitor.get_latest_update_id() + 1
 //@mutant unreadable_update_is_skipped
     let update = update_res?;
 //@with
-    let update = match update_res { Ok(u) => u, Err(_) => return Ok(()) };
+    let update = match update_res { Ok(u) => u, Err(_) => return Ok(true) };
+//@end
+}
+}
+// ---- the updating persister's archiving: the live monitor goes only once the monitor as recovery would rebuild it (stored monitor + its stored updates) is in the archive ----
+pub mod async_archive {
+use vstd::prelude::*;
+pub struct Error {}
+//@extract lightning/src/util/persist.rs :: const CHANNEL_MONITOR_PERSISTENCE_PRIMARY_NAMESPACE
+//@rw R1
+    : &str
+//@with
+    : &'static str
+//@end
+//@extract lightning/src/util/persist.rs :: const CHANNEL_MONITOR_PERSISTENCE_SECONDARY_NAMESPACE
+//@rw R1
+    : &str
+//@with
+    : &'static str
+//@end
+//@extract lightning/src/util/persist.rs :: const ARCHIVED_CHANNEL_MONITOR_PERSISTENCE_PRIMARY_NAMESPACE
+//@rw R1
+    : &str
+//@with
+    : &'static str
+//@end
+//@extract lightning/src/util/persist.rs :: const ARCHIVED_CHANNEL_MONITOR_PERSISTENCE_SECONDARY_NAMESPACE
+//@rw R1
+    : &str
+//@with
+    : &'static str
+//@end
+pub uninterp spec fn write_ok(primary: Seq<char>, secondary: Seq<char>, key: Seq<char>, value: Seq<u8>) -> bool;
+// what recovery rebuilds for a key from the stored monitor and its stored updates (read_channel_monitor_with_updates), serialized
+pub uninterp spec fn recovered_bytes(key: Seq<char>) -> Seq<u8>;
+pub open spec fn archived(key: Seq<char>, value: Seq<u8>) -> bool { write_ok(ARCHIVED_CHANNEL_MONITOR_PERSISTENCE_PRIMARY_NAMESPACE@, ARCHIVED_CHANNEL_MONITOR_PERSISTENCE_SECONDARY_NAMESPACE@, key, value) }
+pub struct BlockLocator {}
+pub struct ChannelMonitor { pub bytes: Ghost<Seq<u8>> }
+impl ChannelMonitor { #[verifier::external_body] pub fn encode(&self) -> (r: Vec<u8>) ensures r@ == self.bytes@ { unimplemented!() } }
+pub struct Store {}
+impl Store {
+    #[verifier::external_body] pub async fn write(&self, primary: &str, secondary: &str, key: &str, value: Vec<u8>) -> (r: Result<(), Error>)
+        ensures (r is Ok) == write_ok(primary@, secondary@, key@, value@) { unimplemented!() }
+    // (P) the obligation the caller must discharge: the live monitor may only be deleted once what recovery would rebuild from it is in the archive
+    #[verifier::external_body] pub async fn remove(&self, primary: &str, secondary: &str, key: &str, lazy: bool) -> (r: Result<(), Error>)
+        requires primary@ == CHANNEL_MONITOR_PERSISTENCE_PRIMARY_NAMESPACE@ ==> archived(key@, recovered_bytes(key@)) { unimplemented!() }
+}
+pub struct MonitorName {}
+impl MonitorName {
+    pub uninterp spec fn key(&self) -> Seq<char>;
+    #[verifier::external_body] pub fn to_key(&self) -> (r: String) ensures r@ == self.key() { unimplemented!() }
+}
+pub struct Inner { pub kv_store: Store }
+impl Inner {
+    #[verifier::external_body] pub async fn read_channel_monitor_with_updates(&self, monitor_key: &str) -> (r: Result<(BlockLocator, ChannelMonitor), Error>)
+        ensures r is Ok ==> r->Ok_0.1.bytes@ == recovered_bytes(monitor_key@) { unimplemented!() }
+//@extract lightning/src/util/persist.rs :: impl MonitorUpdatingPersisterAsyncInner :: fn archive_persisted_channel
+//@mutant live_monitor_removed_even_if_archiving_failed
+    Err(_e) => return,
+//@with
+    Err(_e) => {},
+//@mutant archive_written_under_the_live_namespace
+    let primary = ARCHIVED_CHANNEL_MONITOR_PERSISTENCE_PRIMARY_NAMESPACE; let secondary = ARCHIVED_CHANNEL_MONITOR_PERSISTENCE_SECONDARY_NAMESPACE;
+//@with
+    let primary = CHANNEL_MONITOR_PERSISTENCE_PRIMARY_NAMESPACE; let secondary = ARCHIVED_CHANNEL_MONITOR_PERSISTENCE_SECONDARY_NAMESPACE;
 //@end
 }
 }
